@@ -28,8 +28,11 @@ CLAIMED = {
             "extents in units of the spacing.",
             "DESIGN.md section 6 C02",
             "Assumed: irfft(|rfft(x,P)|^2) is the linear autocorrelation for even P and lags <= P - len(x); transcendental functions uninterpreted. "
-            "NOT decided: the pair-count normalisation (gamma_div), rho = Gamma/Gamma(0) and the cumulative tau_int with its clamp, dtauint (eq. 42), "
-            "the norm step of _compute_drho, the totals incl. Covobs.errsq, several replicas inside one slice (layouts of the slices are single-ensemble)."),
+            "Also proved: the accumulation of Gamma over the replicas of an ensemble and the pair-count normalisation (sum over replicas divided by "
+            "max(1, number of pairs), each replica with its own configuration list; one and two replicas), the vanishing-variance guard, "
+            "rho = Gamma/Gamma(0), the cumulative tau_int with its clamp and dtau_int (eq. 42). A native harness compares rho(t) of the real "
+            "gamma_method with an independent pair-counting evaluation. NOT decided: the norm step of _compute_drho, the totals incl. "
+            "Covobs.errsq over several ensembles."),
     "C03": ("lemmas over the C02 contracts + frame obligations on the gamma_method slices + _parse_kwarg precedence",
             "Proof: (1) FFT on/off: both branches of _calc_gamma satisfy the same postcondition; (2) relabelling i -> a*i+b: the extent of every "
             "replica in units of the common spacing is the relabelling-invariant quantity (postcondition of the r_length slice; the invariance "
